@@ -178,6 +178,7 @@ class Interp(ExprMixin):
                 res = None
             if res is not None:
                 res.entry["arg_kinds"] = [set(a.kinds) if isinstance(a, NodeV) else None for a in self._cur_args]
+                res.entry["args"] = list(self._cur_args)
                 results.append(res)
             # next script
             tr = self.trace
@@ -450,8 +451,10 @@ class Interp(ExprMixin):
             base = self.eval(target.value, env, module)
             idx = self.eval(target.slice, env, module)
             if isinstance(base, PyDict):
-                if isinstance(idx, Const) or (isinstance(idx, Str) and idx.is_const()):
-                    base.items[idx.v if isinstance(idx, Const) else idx.const()] = v
+                from .interp_expr import dict_key
+                kk = dict_key(idx)
+                if kk is not None and not self.loop_ctx:
+                    base.items[kk] = v
                 else:
                     base.opaque_keys.append((idx, v))
                 if getattr(base, 'created_in', None) != self._frame_id():
